@@ -1,4 +1,5 @@
 import RsslVerif.Model.Layout
+import RsslVerif.Model.LayoutCollect
 import RsslVerif.Driver.Util
 /-!
 Line-protocol front end of the C19 model.
@@ -31,10 +32,13 @@ def digit? (c : Char) : Option Nat :=
 def leafOf (w : String) : Option Ty :=
   if w == "ei" then some (.enum .Int32)
   else if w == "eu" then some (.enum .UInt32)
+  else if w.startsWith "@" then some (.other .Object)
+  else if w == "v" then some (.other .Void)
   else match w.toList with
     | [c] => (scalarOf c).map .scalar
     | [c, n] => do let s ← scalarOf c; let n ← digit? n; pure (.vec s n)
     | [c, _, 'x', _] => (scalarOf c).map fun _ => .other .Matrix
+    | [c, _, 'x', _, m] => if m == 'r' || m == 'c' then (scalarOf c).map fun _ => .other .Matrix else none
     | _ => none
 
 mutual
@@ -85,13 +89,137 @@ def showVerdict (use : String) (ts : List Ty) : Verdict → String
 
 def uses : List String := ["sb", "rwsb", "bload", "rwbload", "rwbstore", "baload", "rwbaload", "rwbastore"]
 
+/-! ### whole programs (`C19.prog`) -/
+open RsslVerif.Model.LayoutCollect
+
+/-- does the type mention a struct or an enum (whose every spelling is a fresh definition)? -/
+def mentionsDefinition (toks : List String) : Bool :=
+  toks.any fun w => w == "{" || w == "ei" || w == "eu"
+
+/-- the key under which the type registry interns a type of the request: its position for anything that
+    defines a struct / enum, its (modifier-free) spelling otherwise -/
+def typeKey (k : Nat) (s : String) : String :=
+  let toks := tokens s
+  if mentionsDefinition toks then "#" ++ toString k
+  else " ".intercalate (toks.map fun w =>
+    match w.toList with
+    | [a, b, 'x', d, _] => String.ofList [a, b, 'x', d]
+    | _ => w)
+
+/-- type id of the `k`-th type of the request: the first position with the same key -/
+def typeId (keys : List String) (k : Nat) : Nat :=
+  match keys[k]? with
+  | none => k
+  | some key => (keys.findIdx? (· == key)).getD k
+
+structure PSite where
+  kind : String
+  wrap : String
+  ty : Nat
+
+def parseSite (s : String) : Option PSite :=
+  match s.splitOn "@" with
+  | [lhs, k] => do
+    let k ← k.toNat?
+    match lhs.splitOn "." with
+    | [kind] => pure ⟨kind, "", k⟩
+    | [kind, wrap] => pure ⟨kind, wrap, k⟩
+    | _ => none
+  | _ => none
+
+def globalKinds : List String :=
+  ["sb", "rwsb", "sbc", "sbtd", "sbreg", "sbarr", "rwsbarr", "sbarr2", "sbarru", "sbbl", "sbmem", "sbparam", "cb",
+   "cbuf", "gv", "gs", "st"]
+def fnKinds : List String :=
+  ["bload", "bload2", "rwbload", "rwbload2", "rwbstore", "rwbstoret", "baload", "rwbaload", "rwbastore", "rwbastoret"]
+def wraps : List String := ["m", "u", "t", "t0", "me", "p", "a", "gi", "da", "ex"]
+
+/-- what the type checker makes of a global declaration of the given kind (`none`: no entry in the global
+    registry that matters) -/
+def globalOf (kind : String) (r : TyRef) : Option GTy :=
+  let sb := GTy.object "StructuredBuffer" (some r)
+  let rwsb := GTy.object "RWStructuredBuffer" (some r)
+  if kind == "sb" || kind == "sbtd" || kind == "sbreg" then some sb
+  else if kind == "rwsb" then some rwsb
+  -- `const StructuredBuffer<const S>`: the element is the type id of `const S`, not of `S`
+  else if kind == "sbc" then some (.modifier (.object "StructuredBuffer" (some ⟨r.id + 1000000, r.ty⟩)))
+  else if kind == "sbarr" || kind == "sbarru" || kind == "sbbl" then some (.array sb)
+  else if kind == "rwsbarr" then some (.array rwsb)
+  else if kind == "sbarr2" then some (.array (.array sb))
+  else if kind == "cb" then some (.object "ConstantBuffer" (some r))
+  else if kind == "sbparam" then none
+  else some .other
+
+def intrinsicOf (kind : String) : String :=
+  if kind == "bload" || kind == "bload2" then "ByteAddressBufferLoadT"
+  else if kind == "rwbload" || kind == "rwbload2" then "RWByteAddressBufferLoadT"
+  else if kind == "rwbstore" || kind == "rwbstoret" then "RWByteAddressBufferStore"
+  else if kind == "baload" then "BufferAddressLoad"
+  else if kind == "rwbaload" then "RWBufferAddressLoad"
+  else "RWBufferAddressStore"
+
+/-- the module the front end builds from the request's sites: globals in source order; intrinsic
+    instantiations in the order the bodies are type checked (functions before `main`, then the statements of
+    `main`, a function template being instantiated where it is called, never when it is not) -/
+def moduleOf (refs : List TyRef) (sites : List PSite) : Module :=
+  let indexed := sites.zipIdx
+  let refOf (s : PSite) : TyRef := refs.getD s.ty ⟨0, .other .Void⟩
+  let globals := indexed.filterMap fun (s, i) =>
+    if s.wrap == "" then (globalOf s.kind (refOf s)).map fun g => ⟨g, "G" ++ toString i⟩ else none
+  let fnOf (s : PSite) : Fn := ⟨some (intrinsicOf s.kind), some [.type (refOf s)]⟩
+  let early := sites.filter fun s => ["u", "p", "me", "gi", "da"].contains s.wrap
+  let late := sites.filter fun s => ["m", "a", "t", "ex"].contains s.wrap
+  ⟨globals, (early ++ late).map fnOf⟩
+
+def showProgVerdict (entries : List Entry) : Verdict → String
+  | .ok => "ok"
+  | .unknown i => "unknown@" ++ ((entries[i]?).map (·.loc)).getD "?"
+  | .mismatch i h m =>
+    "mismatch@" ++ ((entries[i]?).map (·.loc)).getD "?" ++ " hlsl=" ++ toString h.size ++ "/" ++ toString h.align ++
+      " metal=" ++ toString m.size ++ "/" ++ toString m.align
+  | .panic msg => "panic:" ++ msg
+
+def handleProg (head tys sites : String) : String :=
+  match head.splitOn ":" with
+  | [target, mode, style] =>
+    if !(["vk", "dx", "msl"].contains target && ["np", "pipe"].contains mode && style.toNat?.isSome) then "bad-request"
+    else
+      let tyStrs := tys.splitOn ";"
+      -- a type name the language does not have: the front end reports it
+      if tyStrs.any fun s => (tokens s).any fun w => w.startsWith "?" then "error" else
+      match sequenceOpt (tyStrs.map parseType), sequenceOpt ((sites.splitOn ",").map parseSite) with
+      | some ts, some ss =>
+        if ss.any fun s => s.ty ≥ ts.length ||
+            !(if s.wrap == "" then globalKinds.contains s.kind else fnKinds.contains s.kind && wraps.contains s.wrap) ||
+            ((s.wrap == "gi" || s.wrap == "da") && !["bload", "rwbload", "baload", "rwbaload"].contains s.kind) ||
+            (s.wrap == "ex" && !["bload", "bload2", "rwbload", "rwbload2", "baload", "rwbaload"].contains s.kind)
+        then "bad-request"
+        -- `void` only as the whole type argument of a typed load that is type checked
+        else if tyStrs.zipIdx.any fun (str, k) =>
+            (tokens str).contains "v" &&
+              !(tokens str == ["v"] && (ss.filter fun s => s.ty == k).all fun s =>
+                  ["bload", "bload2", "rwbload", "rwbload2", "baload", "rwbaload"].contains s.kind &&
+                  ["m", "u", "me", "p", "a"].contains s.wrap)
+        then "bad-request"
+        else
+          let keys := tyStrs.zipIdx.map fun (s, k) => typeKey k s
+          let refs := ts.zipIdx.map fun (t, k) => (⟨typeId keys k, t⟩ : TyRef)
+          let m := moduleOf refs ss
+          match collect m with
+          | .ok entries => showProgVerdict entries (checkAll (entries.map (·.ref.ty)))
+          | .error (.panic msg) => "panic:" ++ msg
+          | .error .unknown => "panic:model"
+      | _, _ => "bad-request"
+  | _ => "bad-request"
+
 def handle (op : String) (args : List String) : String :=
   match op, args with
   | "C19.check", [use, tys] =>
-    if !uses.contains use then "bad-request" else
+    if !uses.contains use || (tokens tys).contains "v" then "bad-request" else
     match sequenceOpt ((tys.splitOn ";").map parseType) with
     | some ts => showVerdict use ts (checkAll ts)
     | none => "bad-request"
+  | "C19.prog", [head, tys, sites] => handleProg head tys sites
   | _, _ => "unsupported-op"
 
 end RsslVerif.Driver.C19
